@@ -4,24 +4,49 @@ open Frappy.Spec.C16
 namespace Frappy.Comm
 
 @[simp] theorem failTo_reqs0 (k : Caller) : (failTo k).reqs0 = k.reqs0 := rfl
-@[simp] theorem failTo_sent (k : Caller) : (failTo k).sent = k.sent := rfl
 @[simp] theorem failTo_sendT (k : Caller) : (failTo k).sendT = k.sendT := rfl
 @[simp] theorem nextReq_reqs0 (k : Caller) : (nextReq k).reqs0 = k.reqs0 := by unfold nextReq; split <;> rfl
-@[simp] theorem nextReq_sent (k : Caller) : (nextReq k).sent = k.sent := by unfold nextReq; split <;> rfl
 @[simp] theorem nextReq_sendT (k : Caller) : (nextReq k).sendT = k.sendT := by unfold nextReq; split <;> rfl
-@[simp] theorem afterConnected_reqs0 (k : Caller) : (afterConnected k).reqs0 = k.reqs0 := rfl
-@[simp] theorem afterConnected_sent (k : Caller) : (afterConnected k).sent = k.sent := rfl
-@[simp] theorem afterConnected_sendT (k : Caller) : (afterConnected k).sendT = k.sendT := rfl
+@[simp] theorem afterConnected_reqs0 (s : State) (k : Caller) : (afterConnected s k).reqs0 = k.reqs0 := by
+  unfold afterConnected; split <;> split <;> (try split) <;> simp
+@[simp] theorem afterConnected_sendT (s : State) (k : Caller) : (afterConnected s k).sendT = k.sendT := by
+  unfold afterConnected; split <;> split <;> (try split) <;> simp
 @[simp] theorem toFlush_reqs0 (s : State) (k : Caller) : (toFlush s k).reqs0 = k.reqs0 := by unfold toFlush; split <;> simp
-@[simp] theorem toFlush_sent (s : State) (k : Caller) : (toFlush s k).sent = k.sent := by unfold toFlush; split <;> simp
 @[simp] theorem toFlush_sendT (s : State) (k : Caller) : (toFlush s k).sendT = k.sendT := by unfold toFlush; split <;> simp
+@[simp] theorem rcFail_reqs0 (k : Caller) : (rcFail k).reqs0 = k.reqs0 := by unfold rcFail; split <;> simp
+@[simp] theorem rcFail_sendT (k : Caller) : (rcFail k).sendT = k.sendT := by unfold rcFail; split <;> simp
+@[simp] theorem afterIdent_reqs0 (s : State) (k : Caller) : (afterIdent s k).reqs0 = k.reqs0 := by
+  unfold afterIdent; split <;> (try split) <;> simp
+@[simp] theorem afterIdent_sendT (s : State) (k : Caller) : (afterIdent s k).sendT = k.sendT := by
+  unfold afterIdent; split <;> (try split) <;> simp
+@[simp] theorem startIdent_reqs0 (s : State) (k : Caller) : (startIdent s k).reqs0 = k.reqs0 := by
+  unfold startIdent; split <;> simp
+@[simp] theorem startIdent_sendT (s : State) (k : Caller) : (startIdent s k).sendT = k.sendT := by
+  unfold startIdent; split <;> simp
+@[simp] theorem idNext_reqs0 (cfg : Cfg) (k : Caller) : (idNext cfg k).reqs0 = k.reqs0 := by
+  unfold idNext; split <;> (try split) <;> (try split) <;> simp
+@[simp] theorem idNext_sendT (cfg : Cfg) (k : Caller) : (idNext cfg k).sendT = k.sendT := by
+  unfold idNext; split <;> (try split) <;> (try split) <;> simp
+@[simp] theorem toIdFlush_reqs0 (s : State) (k : Caller) : (toIdFlush s k).reqs0 = k.reqs0 := by unfold toIdFlush; split <;> simp
+@[simp] theorem toIdFlush_sendT (s : State) (k : Caller) : (toIdFlush s k).sendT = k.sendT := by unfold toIdFlush; split <;> simp
+@[simp] theorem toIdEndFail_reqs0 (k : Caller) : (toIdEndFail k).reqs0 = k.reqs0 := rfl
+@[simp] theorem toIdEndFail_sendT (k : Caller) : (toIdEndFail k).sendT = k.sendT := rfl
 @[simp] theorem failTo_ne_idle (k : Caller) : (failTo k).pc ≠ .idle := by rcases failTo_pc2 k with h | h <;> simp [h]
 @[simp] theorem nextReq_ne_idle (k : Caller) : (nextReq k).pc ≠ .idle := by
   rcases nextReq_pc_cases k with h | h | h <;> simp [h]
-@[simp] theorem afterConnected_ne_idle (k : Caller) : (afterConnected k).pc ≠ .idle := by
-  rcases afterConnected_pc_cases k with h | h <;> simp [h]
+@[simp] theorem afterConnected_ne_idle (s : State) (k : Caller) : (afterConnected s k).pc ≠ .idle := by
+  unfold afterConnected; split <;> split <;> (try split) <;> simp
 @[simp] theorem toFlush_ne_idle (s : State) (k : Caller) : (toFlush s k).pc ≠ .idle := by
   rcases toFlush_pc_cases s k with h | h | h <;> simp [h]
+@[simp] theorem rcFail_ne_idle (k : Caller) : (rcFail k).pc ≠ .idle := by unfold rcFail; split <;> simp
+@[simp] theorem afterIdent_ne_idle (s : State) (k : Caller) : (afterIdent s k).pc ≠ .idle := by
+  unfold afterIdent; split <;> (try split) <;> simp
+@[simp] theorem startIdent_ne_idle (s : State) (k : Caller) : (startIdent s k).pc ≠ .idle := by
+  unfold startIdent; split <;> simp
+@[simp] theorem idNext_ne_idle (cfg : Cfg) (k : Caller) : (idNext cfg k).pc ≠ .idle := by
+  unfold idNext; split <;> (try split) <;> (try split) <;> simp
+@[simp] theorem toIdFlush_ne_idle (s : State) (k : Caller) : (toIdFlush s k).pc ≠ .idle := by unfold toIdFlush; split <;> simp
+@[simp] theorem toIdEndFail_ne_idle (k : Caller) : (toIdEndFail k).pc ≠ .idle := by simp [toIdEndFail]
 
 theorem step_call_facts (s s' : State) (t c x : Nat) (kd : Kind) (rq : List Req)
     (h : stepCaller s t c (.call x kd rq) = some s') :
@@ -365,7 +390,8 @@ theorem linv_exec (cfg : Cfg) (cbs : List Nat) (evs : List TEv) (s : State)
 /-- the delay bookkeeping of every caller, relative to the clock of the state -/
 def GInv (s : State) : Prop := ∀ c, GhostOk s.clock (s.callers c)
 
-theorem ginv_step {s s' : State} (e : TEv) (hg : GInv s) (h : step s e = some s') : GInv s' := by
+theorem ginv_step {log : Log} {s s' : State} (e : TEv) (hi : Inv log s) (hid : s.cfg.ident = []) (hg : GInv s)
+    (h : step s e = some s') : GInv s' := by
   have hclk : s.clock ≤ e.t := by
     unfold step at h; split at h
     · simp at h
@@ -398,22 +424,24 @@ theorem ginv_step {s s' : State} (e : TEv) (hg : GInv s) (h : step s e = some s'
       rw [hclock]
       by_cases hcc : c = c0
       · subst hcc
-        exact step_ghost _ s' e.t c s.clock e.ev h hclk (hg c)
+        exact step_ghost _ s' e.t c s.clock e.ev h hclk hid (hi.ni hid c) (hg c)
       · rw [step_others _ s' e.t c0 e.ev h c hcc]
         exact ghost_mono (hg c) hclk ⟨rfl, rfl, rfl, rfl, rfl, rfl, rfl⟩ rfl rfl
 
-theorem ginv_exec_gen : ∀ (evs : List TEv) (s0 s : State), GInv s0 → exec s0 evs = some s → GInv s
-  | [], s0, s, hv, h => by simp [exec] at h; subst h; exact hv
-  | e :: es, s0, s, hv, h => by
+theorem ginv_exec_gen : ∀ (evs pre : List TEv) (s0 s : State), Inv pre s0 → s0.cfg.ident = [] → GInv s0 →
+    exec s0 evs = some s → GInv s
+  | [], _, s0, s, _, _, hv, h => by simp [exec] at h; subst h; exact hv
+  | e :: es, pre, s0, s, hi, hid, hv, h => by
     simp only [exec] at h
     cases hst : step s0 e with
     | none => simp [hst] at h
     | some s1 =>
       simp only [hst] at h
-      exact ginv_exec_gen es s1 s (ginv_step e hv hst) h
+      exact ginv_exec_gen es (pre ++ [e]) s1 s (inv_step e hi hst) (by rw [step_keeps_cfg hst]; exact hid)
+        (ginv_step e hi hid hv hst) h
 
-theorem ginv_exec (cfg : Cfg) (cbs : List Nat) (evs : List TEv) (s : State)
+theorem ginv_exec (cfg : Cfg) (cbs : List Nat) (evs : List TEv) (s : State) (hid : cfg.ident = [])
     (h : exec { cfg := cfg, cbsReg := cbs } evs = some s) : GInv s :=
-  ginv_exec_gen evs _ s (fun c => ghost_dead _ _ (Or.inr (Or.inr (Or.inr rfl)))) h
+  ginv_exec_gen evs [] _ s (inv_init cfg cbs) hid (fun _ => ghost_dead _ _ (Or.inr (Or.inr (Or.inr rfl)))) h
 
 end Frappy.Comm
